@@ -251,10 +251,9 @@ def check_cases(ctx, cases, wd, tag, expected=None):
         o = obs[k]
         if (k + 1) in bad or o['rejected'] or any(t.endswith('.rst') for t in cases[k]['title']):
             continue                        # (titles ending in .rst: see the open finding)
-        figs = bool(cases[k].get('figures'))
-        got = [dict(path=p['path'], headers=p['headers'], texts=p['texts'], anchors=p['anchors'], toc=p['toc'],
-                    nimages=len(p['images']) if figs else 0) for p in o['pages']]
-        exp = [dict(p, nimages=p['nimages'] if figs else 0) for p in exp]
+        got = [dict(path=p['path'], headers=p['headers'], texts=p['texts'], anchors=p['anchors'], toc=p['toc'])
+               for p in o['pages']]
+        exp = [dict((f, v) for f, v in p.items() if f != 'nimages') for p in exp]
         if got != exp and ndrift < 3:
             ndrift += 1
             ctx.drift('written pages differ from the model although every clause holds: tree %s: %s vs model %s'
@@ -378,7 +377,7 @@ def run_c20(ctx):
             cases.append(case)
         os.remove(dump + '.dump')
     _tick(ctx, 'read dumps')
-    limit = ctx.pick(4500, 10 ** 9)
+    limit = ctx.pick(3000, 10 ** 9)
     if len(cases) > limit:                      # keep all small trees, thin out the largest ones deterministically
         small = [i for i, c in enumerate(cases) if len(c['parent']) < 4]
         big = [i for i, c in enumerate(cases) if len(c['parent']) >= 4]
@@ -395,7 +394,7 @@ def run_c20(ctx):
 
     _tick(ctx, 'enumerated trees written + judged')
     # 3. code -> spec
-    rcases = random_cases(ctx.rng, ctx.pick(1500, 20000), 0.01)
+    rcases = random_cases(ctx.rng, ctx.pick(1000, 20000), 0.01)
     check_cases(ctx, rcases, wd, 'random')
     ctx.cov['inputs']['seeded_random'] = len(rcases)
     _tick(ctx, 'random trees')
